@@ -873,6 +873,47 @@ pub fn run(tier: Tier) -> ! {
         }
     }
 
+    // (9b) the same, with the services at very different offsets of their sources: a main schema
+    //      that sorts before / after its imports and is much shorter / longer than they are (a
+    //      diagnostic that points into several schemas must take each span from its own source)
+    let pad = "// padding so that the service below sits at an offset none of the imported sources has\n".repeat(12);
+    let long_main = format!("import dep;\nimport other;\n{pad}service A {{ uuid = 5c7d1a59-8ba1-4d0a-9b5e-2f0c2d1e7a01; version = 1; }}\n");
+    let short_main = "import dep;\nimport other;\nservice A{uuid=5c7d1a59-8ba1-4d0a-9b5e-2f0c2d1e7a01;version=1;}".to_string();
+    for text in [&long_main, &short_main] {
+        for main in ["main", "aaa", "zzz"] {
+            for &e in ENVS {
+                for _ in 0..3 {
+                    check_total(&cx, main, text, e, "duplicate-uuid");
+                }
+            }
+        }
+    }
+
+    // (11) string constants: all strings of <= 4 (thorough 5) fragments over plain, multi-byte,
+    //      valid and invalid escapes (an escape's span is a byte range, not a character range)
+    {
+        let frags = ["a", "\u{e9}", "\u{1d11e}", "\\\\", "\\\"", "\\n", "\\\u{e9}", "\\\u{1d11e}", " ", "\t"];
+        let max = if thorough { 5 } else { 4 };
+        let mut texts: Vec<String> = vec![String::new()];
+        let mut level: Vec<String> = vec![String::new()];
+        for _ in 0..max {
+            let mut next = Vec::with_capacity(level.len() * frags.len());
+            for l in &level {
+                for f in frags {
+                    next.push(format!("{l}{f}"));
+                }
+            }
+            texts.extend(next.iter().cloned());
+            level = next;
+        }
+        texts.par_iter().for_each(|t| {
+            check_total(&cx, front::MAIN, &format!("const A = string(\"{t}\");\n"), Env::Resolvable, "string-constants");
+        });
+        texts.par_iter().filter(|t| t.chars().count() <= 3).for_each(|t| {
+            check_total(&cx, front::MAIN, &format!("/// {t}\nconst A = string(\"{t}\");\nconst B = string(\"{t}{t}\");\nstruct S {{ a @ 1 = [u8; A]; }}\n"), Env::Resolvable, "string-constants");
+        });
+    }
+
     // (10) several groups of duplicates in one definition (ids and names, two and three groups,
     //      pairs and triples): which duplicate is reported against which first definition, with
     //      which suggested free id and in which order must not depend on the run
